@@ -38,6 +38,10 @@ func RunC12(r *sim.Run) {
 	ttlD := []time.Duration{2 * time.Second, 30 * time.Second}[t.Draw(2)]
 	w := NewWorld(r, Options{TokenSuccessTTL: ttlS, TokenFailureTTL: ttlF, AuthzAllowTTL: ttlA, AuthzDenyTTL: ttlD})
 	defer w.Stop()
+	if strings.Contains(r.Profile, "preempt") {
+		w.EnablePreemption(uint64(t.Draw(1 << 30)))
+		defer func() { r.ProbeN("preemptions_inside_gateway_code", w.Sc.Preempts) }()
+	}
 	maxTTL := ttlS
 	for _, d := range []time.Duration{ttlF, ttlA, ttlD} {
 		if d > maxTTL {
@@ -125,9 +129,9 @@ func RunC12(r *sim.Run) {
 
 	var reqs []*c12Req
 	nSteps := t.Range(15, 55)
-	moves, mutations, twins, churns := 0, 0, 0, 0
+	moves, mutations, twins, churns, sameInstant := 0, 0, 0, 0, 0
 	for step := 0; step < nSteps; step++ {
-		weights := []int{12, 4, 2, 2, 1, 0, 2, 0, 2}
+		weights := []int{12, 4, 2, 2, 1, 0, 2, 0, 2, 3}
 		if extended {
 			weights[5] = 2
 			weights[7] = 1
@@ -283,6 +287,43 @@ func RunC12(r *sim.Run) {
 			}
 			r.Logf("twins %s: %s -> %d, %s -> %d (impersonation: %s=%s %s=%s)", who, up[i], pair[0].q.Status, up[j], pair[1].q.Status,
 				up[i], impHist[up[i]][len(impHist[up[i]])-1].val, up[j], impHist[up[j]][len(impHist[up[j]])-1].val)
+		case 9: // two or three requests with drawn tokens reach different clusters at the same instant
+			var up []string
+			for _, n := range names {
+				if live[n] && reachable[n] {
+					up = append(up, n)
+				}
+			}
+			if len(up) < 2 {
+				break
+			}
+			w.NoWait = true
+			var batch []*c12Req
+			for k := t.Range(2, 3); k > 0; k-- {
+				n := up[t.Draw(len(up))]
+				c := &c12Req{host: n, token: []string{"t1", "t2", "ts"}[t.Draw(3)], owner: n, ownerUp: true, overlap: true, at: w.Now()}
+				c.q = &Req{ID: fmt.Sprintf("c%d", len(reqs)), Host: n, Method: "GET", Target: "/api/v1/namespaces/default/pods",
+					Headers: [][2]string{{"Authorization", "Bearer " + c.token}}}
+				w.Send(c.q)
+				reqs = append(reqs, c)
+				batch = append(batch, c)
+			}
+			w.NoWait = false
+			w.Quiesce()
+			for g := 0; g < 8; g++ {
+				all := true
+				for _, c := range batch {
+					if !c.q.Done {
+						all = false
+					}
+				}
+				if all {
+					break
+				}
+				w.Advance(time.Second)
+			}
+			sameInstant++
+			r.Logf("same instant: %d requests to %d clusters", len(batch), len(up))
 		case 8: // a cluster that answered a question goes away; another one is created and is asked the same question as its first
 			var xs []string
 			for _, n := range names {
@@ -500,6 +541,7 @@ func RunC12(r *sim.Run) {
 	r.ProbeN("alias_moves", moves)
 	r.ProbeN("same_question_to_two_clusters_at_once", twins)
 	r.ProbeN("table_mutations", mutations)
+	r.ProbeN("batches_of_requests_at_one_instant", sameInstant)
 	r.ProbeN("first_question_to_a_fresh_cluster_after_another_was_stopped", churns)
 	r.Nontrivial = nFwd > 1 && nCl > 1
 	r.Sample = map[string]interface{}{"clusters": nCl, "requests": len(reqs), "ttl_success": ttlS.String(), "ttl_failure": ttlF.String(), "ttl_allow": ttlA.String(), "alias_moves": moves}
